@@ -77,7 +77,7 @@ func floorHalf(a int) int { // Coq's Z division rounds towards minus infinity
 const strOff = 100000000
 
 // opStart is the UnixNano time at which the call in progress started (0 = none); the watchdog ends the
-// process when one call runs longer than 5 s or the heap passes 2 GiB (a corrupted tree can make a
+// process when one call runs longer than 3 s or the heap passes 2 GiB (a corrupted tree can make a
 // traversal loop forever).  Completed histories have been flushed; the one in progress prints nothing,
 // so the check sees exactly which history hung (exit code 3) and resumes after it.
 var opStart atomic.Int64
@@ -88,7 +88,7 @@ func watchdog() {
 		time.Sleep(20 * time.Millisecond)
 		t := opStart.Load()
 		runtime.ReadMemStats(&ms)
-		if (t != 0 && time.Now().UnixNano()-t > int64(5*time.Second)) || ms.HeapAlloc > 2<<30 {
+		if (t != 0 && time.Now().UnixNano()-t > int64(3*time.Second)) || ms.HeapAlloc > 2<<30 {
 			os.Exit(3)
 		}
 	}
